@@ -14,8 +14,10 @@ THEOREMS = {
             'C07_new_then_raw', 'C07_never_panics', 'C10_no_variant_is_unrepresentable', 'C07_real_match_is_the_model_conversion'],
     'C08': ['C01_getter_exact', 'C02_setter_exact', 'C01_generator_model_every_getter', 'C02_generator_model_every_setter'],
     'C09': ['C09_accept_iff_valid', 'C09_field_accept_iff_valid', 'C09_argument_automaton_parses_well_formed_attributes',
-            'C09_accepted_fields_have_a_parsable_attribute', 'model_macro_end_to_end'],
-    'C10': ['C10_enum_accept_iff_valid', 'C10_exhaustive_claims_are_sound', 'C10_no_variant_is_unrepresentable'],
+            'C09_accepted_fields_have_a_parsable_attribute', 'C09_numeric_checks_are_the_arithmetic_part_of_accept_field',
+            'model_macro_end_to_end'],
+    'C10': ['C10_enum_accept_iff_valid', 'C10_exhaustive_claims_are_sound', 'C10_no_variant_is_unrepresentable',
+            'C10_count_checks_are_the_arithmetic_part_of_enum_accept'],
     'C11': ['C11_no_state_above_bit_N', 'C11_rewrap_is_identity_on_reachable_states', 'C12_real_code_any_history',
             'C12_run_obligations_give_setters_ok', 'C02_setter_exact', 'C06_raw_value_exact', 'C06_new_with_raw_value_exact', 'C12_generator_model_any_history', 'C02_generator_model_every_setter', 'model_macro_end_to_end'],
     'C12': ['C12_last_write_wins', 'C12_last_write_is_the_last_covering_one', 'C12_untouched_bits_keep_initial_value',
